@@ -39,6 +39,9 @@ impl Property for C01 {
         let out = super::c02::format(case, &case.text);
         let o = CanonOpts { dir: String::new(), mask_refreshable: true };
         let s_in = scan::scan(&case.text);
+        if !feature_on("code_fence_in_body") && canon::has_fence_in_code(&s_in) {
+            return Verdict::Discard("known-domain: code body contains a fence line".into());
+        }
         let s_out = scan::scan(&out);
         let st = canon::scan_stats(&s_in, &case.text);
         for k in &st.kinds {
@@ -48,6 +51,9 @@ impl Property for C01 {
         stats.class(&format!("depth:{}", st.max_depth.min(4)));
         let a = canon::canon(&s_in, &o);
         let b = canon::canon(&s_out, &o);
+        if !feature_on("adjacent_lists") && canon::has_adjacent_same_lists(&a.blocks) {
+            return Verdict::Discard("known-domain: adjacent lists of the same kind".into());
+        }
         if let Some(d) = canon::diff(&a, &b) {
             return Verdict::fail(
                 format!("c01|{}", d.sig),
